@@ -20,6 +20,7 @@ from lib import coq_list, coq_Z
 
 COQ_TARGETS = ["theories/Props/C04.vo", "theories/Model/ScalarsEq.vo", "theories/Model/IsoTextEq.vo",
                "theories/Model/IsoHistoryEq.vo"]
+COQ_TARGETS = COQ_TARGETS + ["theories/Props/SerdesAstTime.vo"]
 COQ_TARGETS = COQ_TARGETS + ["theories/Props/LeafBridge.vo", "theories/Model/LeafBridgeEq.vo"]      # = leaftie.COQ_TARGETS (leaftie imports this module)
 THEOREMS = ["C04_dur_wellformed", "C04_dur_reader", "C04_refuted_zero_malformed", "C04_not_full",
             "C04_refuted_weeks", "C04_refuted_negative", "C04_iso_cache_transparent", "C04_history_transparent",
@@ -1225,6 +1226,10 @@ def correspond(run: lib.Run):
     # the scalar MARSHALLERS and the leaf laws of the composite theorems, derived from this scalar model (Props/LeafBridge.v)
     import leaftie      # imports this module's generators: not at module level
     lib.run_tie(run, leaftie)
+    # the isoformat / unixtime ladders of serdes.py, parsed and translated on this run (Props/SerdesAstTime.v)
+    import serdesasttie
+    lib.run_tie(run, serdesasttie, parts=("time",))
+    run.tie_failures = list(getattr(run, "tie_failures", [])) + list(serdesasttie.search(run, parts=("time",)))
 
 
 # ----------------------------------------------------------------------------------
